@@ -87,6 +87,11 @@ func (p *Reader) ReadCStringN(n int) string {
 		return ""
 	}
 
+	if n > p.buffer.Len() {
+		p.opError = newPacketError(fmt.Errorf("read unexpected length"), "ReadBytes")
+		return ""
+	}
+
 	temp := make([]byte, n)
 
 	r, err := p.buffer.Read(temp)
@@ -113,6 +118,11 @@ func (p *Reader) ReadCStringNWithoutTrim(n int) string {
 	}
 
 	if n <= 0 {
+		return ""
+	}
+
+	if n > p.buffer.Len() {
+		p.opError = newPacketError(fmt.Errorf("read unexpected length"), "ReadBytes")
 		return ""
 	}
 
@@ -155,6 +165,11 @@ func (p *Reader) ReadNBytes(n int) []byte {
 	}
 
 	if n <= 0 {
+		return nil
+	}
+
+	if n > p.buffer.Len() {
+		p.opError = newPacketError(fmt.Errorf("read unexpected length"), "ReadBytes")
 		return nil
 	}
 
